@@ -24,6 +24,7 @@ func checkC18(p *load.Program, r *kit.Report) {
 		func(o *kit.Obligation) bool { return strings.HasPrefix(o.Construct, "load/heights-only") }, "ORDER")
 	importRules(p, r, "C01", "`on the current best chain` is relative to repo.longest: Longest() must pick the branch with the most accumulated work", 1, nil, "ARGMAX")
 	importRules(p, r, "C09", "the height-map arm of the lookups compares with header(height): it must refuse heights beyond the tip, or a trimmed (invalidated) block still in the files verifies as best chain", 6, nil, "TIP-BOUND")
+	importRules(p, r, "C09", "GetHeader resolves a block hash through the branches' hash maps, main branch first: a consolidated branch must start with a map of its own, or the hashes of displaced blocks resolve to the block that replaced them and a proof naming them verifies", 1, nil, "FRESH-MAP")
 	importRules(p, r, "C17", "`on the current best chain` is a comparison with repo.longest: after an invalidation removed branches the tip must be re-selected on every path, or blocks of a deleted branch keep verifying as best chain", 1,
 		func(o *kit.Obligation) bool {
 			return strings.HasPrefix(o.Construct, "MarkHeaderInvalid/reselect-after-trim")
